@@ -3,6 +3,7 @@ package rig
 import (
 	"context"
 	"fmt"
+	"runtime"
 	"strings"
 	"testing"
 	"testing/synctest"
@@ -128,3 +129,40 @@ func InitiatorSession(cfg Cfg, h *simplefixgo.DefaultHandler, cs session.Counter
 }
 
 var _ = memory.NewStorage
+
+// Stacks returns a condensed dump of the goroutines of the calling bubble that
+// have a library frame: one line per goroutine with its state and the library
+// functions on its stack.
+func Stacks() string {
+	self := make([]byte, 256)
+	self = self[:runtime.Stack(self, false)]
+	bubble := ""
+	if i := strings.Index(string(self), "synctest bubble "); i >= 0 {
+		rest := string(self)[i:]
+		if j := strings.IndexAny(rest, "]:,"); j > 0 {
+			bubble = rest[:j] + "]"
+		}
+	}
+	buf := make([]byte, 4<<20)
+	buf = buf[:runtime.Stack(buf, true)]
+	var out []string
+	for _, g := range strings.Split(string(buf), "\n\n") {
+		if bubble == "" || !strings.Contains(g, bubble) || !strings.Contains(g, "github.com/b2broker/simplefix-go") {
+			continue
+		}
+		lines := strings.Split(g, "\n")
+		head := lines[0]
+		var fns []string
+		for _, l := range lines[1:] {
+			if strings.HasPrefix(l, "github.com/b2broker/simplefix-go") {
+				fn := strings.TrimPrefix(l, "github.com/b2broker/simplefix-go")
+				if k := strings.LastIndex(fn, "("); k > 0 {
+					fn = fn[:k]
+				}
+				fns = append(fns, fn)
+			}
+		}
+		out = append(out, head+" "+strings.Join(fns, " < "))
+	}
+	return strings.Join(out, "\n")
+}
